@@ -3,7 +3,7 @@ From Coq Require Import String ZArith List Bool.
 From XV Require Import Base.Label Base.LSet Base.ODict Base.Attr Base.Outcome Model.Hypergraph
   Model.HgCheck Model.Copy Model.Derived Proofs.HgViews Proofs.HgInv Proofs.HgStep Proofs.Build Proofs.DerivedProofs
   Proofs.NoNoneProofs Proofs.DualProofs Proofs.UnionProofs Proofs.ComplementProofs Proofs.MaxSimplicesProofs
-  Model.Stats Model.Graph Proofs.GraphProofs Proofs.LccProofs.
+  Model.Stats Model.Graph Proofs.GraphProofs Proofs.LccProofs Proofs.HgErrors Proofs.RelabelProofs.
 Import ListNotations.
 Open Scope Z_scope.
 
@@ -108,6 +108,23 @@ Theorem C19_largest_component_inplace : forall s c, Inv s -> first_longest (Hype
             forall x, In x (nkeys (st_of (largest_connected_inplace s))) <-> Reach s v x.
 Proof. exact lcc_inplace_spec. Qed.
 Print Assumptions C19_largest_component_inplace.
+
+(* convert_labels_to_integers (in place): the result has nodes 0..n-1 and edges 0..m-1, the renaming is the position in the
+   old node / edge order (hence injective), and edge emap(e) has exactly the renamed members of e: an isomorphism. *)
+Theorem C19_relabel_isomorphism : forall la s, Inv s ->
+  let r := relabel_inplace la s in
+  let t := st_of r in
+  let nmap := fun n => LInt (Hypergraph.index_of n (nkeys s) 0) in
+  let emap := fun e => LInt (Hypergraph.index_of e (ekeys s) 0) in
+  out_of r = Ok /\ Inv t /\
+  nkeys t = map (fun i => LInt (Z.of_nat i)) (seq 0 (length (nkeys s))) /\
+  ekeys t = map (fun j => LInt (Z.of_nat j)) (seq 0 (length (ekeys s))) /\
+  (forall e, In e (ekeys s) -> seteq (mems t (emap e)) (map nmap (mems s e))) /\
+  (forall x y, In x (nkeys s) -> In y (nkeys s) -> nmap x = nmap y -> x = y) /\
+  (forall x y, In x (ekeys s) -> In y (ekeys s) -> emap x = emap y -> x = y) /\
+  h_net t = h_net s.
+Proof. exact relabel_spec. Qed.
+Print Assumptions C19_relabel_isomorphism.
 
 (* the premises Inv and NoNone hold at every state reachable by an admissible, expressible history *)
 Theorem C19_premises_reachable : forall ops,
